@@ -9,6 +9,7 @@ import Stef.Driver.Spec
 import Stef.Driver.Codec
 import Stef.Driver.Limiter
 import Stef.Driver.Handshake
+import Stef.Driver.Cmp
 
 open Stef.Driver
 
@@ -19,7 +20,9 @@ def mkHandlers : IO (List (List String × Handler)) := do
   let codec ← mkHandler ({} : CodecD.St) CodecD.step
   let limiter ← mkHandler ({} : LimiterD.St) LimiterD.step
   let hs ← mkHandler () HandshakeD.step
+  let cmp ← mkHandler ({} : Cmp.St) Cmp.step
   pure [
+    (["prim", "cmp", "eq", "clone", "copy"], cmp),
     (["hs"], hs),
     (["sl"], limiter),
     (["sd"], spec),
